@@ -318,6 +318,8 @@ type ReqSc struct {
 	// Hdr: optional header elements none of which may change what the properties state
 	// bits 0-1 BatchOrderOption (0 absent, 1 true, 2 false) | 4 AsynchronousIndicator=false | 8 MaximumResponseSize
 	// | 16 ClientCorrelationValue | 32 no TimeStamp | 64 Authentication (username/password credential)
+	// | 128 ServerCorrelationValue, the same in every request | 256 AttestationCapableIndicator + AttestationType list
+	// | 512 a ClientCorrelationValue shared by all requests
 	Hdr int `json:"hdr,omitempty"`
 	// Ctx (direct HandleRequest callers only): 0 a live context, 1 a context that is already cancelled, 2 a context
 	// that the handler of the item whose token starts with "cc" cancels. None of this may change the response.
@@ -360,14 +362,14 @@ func genHdr(g *simrt.Tape) int {
 	if g.Draw(2) == 0 {
 		return 0
 	}
-	return g.Draw(3) | g.Draw(32)<<2
+	return g.Draw(3) | g.Draw(256)<<2
 }
 
 // allHdrs enumerates every combination of optional header elements.
 func allHdrs() []int {
 	var out []int
 	for o := 0; o < 3; o++ {
-		for rest := 0; rest < 32; rest++ {
+		for rest := 0; rest < 256; rest++ {
 			out = append(out, o|rest<<2)
 		}
 	}
@@ -428,6 +430,18 @@ func buildRequest(rs *ReqSc, prefix string) *kmip.RequestMessage {
 	if rs.Hdr&64 != 0 {
 		req.Header.Authentication = &kmip.Authentication{Credential: kmip.Credential{CredentialType: kmip.CredentialTypeUsernameAndPassword,
 			CredentialValue: kmip.CredentialValue{UserPassword: &kmip.CredentialValueUserPassword{Username: "u-" + prefix, Password: "p"}}}}
+	}
+	if rs.Hdr&128 != 0 {
+		// (the same value in every request that carries one: requests are not related by it)
+		req.Header.ServerCorrelationValue = "scv-shared"
+	}
+	if rs.Hdr&256 != 0 {
+		v := rs.Hdr&1 != 0
+		req.Header.AttestationCapableIndicator = &v
+		req.Header.AttestationType = []kmip.AttestationType{kmip.AttestationTypeTPMQuote, kmip.AttestationTypeSAMLAssertion}
+	}
+	if rs.Hdr&512 != 0 {
+		req.Header.ClientCorrelationValue = "ccv-shared"
 	}
 	for i, it := range rs.Items {
 		id := fmt.Sprintf("%s.%d", prefix, i)
